@@ -26,12 +26,14 @@ var c09ForbiddenMethods = map[string]bool{
 
 func runC09(c *Ctx, tier string) {
 	r := NewReport("C09", "other", tier, c)
-	r.Explanation = "Access policy, over the SSA of every function of packages zlint, lint, util and lints/*, on the members of zcrypto's x509.Certificate whose value depends on the signature bits: (1) Signature may be loaded only where the sole use of the loaded value is len(); (2) SelfSigned may be read only by util.IsSelfSigned, which returns it unchanged, and in the zcrypto source as loaded every store to SelfSigned is the constant true in a block dominated by the true edge of bytes.Equal(RawSubject, RawIssuer) — so it can be true only for self-issued certificates; (3) the fingerprints over the whole certificate, ValidationLevel, and the verification / JSON methods of Certificate are not used at all; (4) Raw (which contains the signature) may flow only into len(), into the first argument of asn1.Unmarshal — whose target struct may then not be read at its third top-level component (the signature BIT STRING) or its RawContent, nor escape — or into a cryptobyte.String that is only the receiver of a single read yielding the outer SEQUENCE, from which at most the first two elements (tbsCertificate, signatureAlgorithm) are read and which is not otherwise used. Does not decide that a decoder's success is independent of the signature bits (true for same-length BIT STRING contents — library semantics), nor dependence through zcrypto-derived fields not in the list."
-	r.Rule("signature-len-only; selfsigned-reader; selfsigned-only-if-self-issued; forbidden-members; raw-decode-only")
-	r.Trusted = []string{"go/ssa", "asn1.Unmarshal / cryptobyte decode fields positionally (ASN.1 Certificate = SEQUENCE{tbs, alg, sig})", "zcrypto computes every other exported field from the TBS part"}
+	r.Explanation = "Access policy, over the SSA of every function of packages zlint, lint, util and lints/*, on the members of zcrypto's x509.Certificate whose value depends on the signature bits: (1) Signature may be loaded only where the sole use of the loaded value is len(); (2) SelfSigned may be read only by util.IsSelfSigned, which returns it unchanged, and in the zcrypto source as loaded every store to SelfSigned is the constant true in a block dominated by the true edge of bytes.Equal(RawSubject, RawIssuer) — so it can be true only for self-issued certificates; (3) the fingerprints over the whole certificate, ValidationLevel, and the verification / JSON methods of Certificate are not used at all; (4) Raw (which contains the signature) may flow only into len(), into the first argument of asn1.Unmarshal — whose target struct may then not be read at its third top-level component (the signature BIT STRING) or its RawContent, nor escape — or into a cryptobyte.String that is only the receiver of a single read yielding the outer SEQUENCE, from which at most the first two elements (tbsCertificate, signatureAlgorithm) are read and which is not otherwise used. (5) WHICH members are signature-dependent is not taken on trust: a forward taint over the SSA of zcrypto's x509.parseCertificate as loaded (sources in.SignatureValue and in.Raw; data flow through every instruction and call result, control dependence on tainted branches, callees handed the certificate summarised by their read/write sets over static calls inside zcrypto) re-derives the set on every run — today Raw, Signature, SelfSigned, the three whole-certificate fingerprints and ValidationLevel — and every derived member must be covered by rules 1-4; (6) every zcrypto function that code in scope hands the certificate to is summarised the same way and may not read a derived member (e.g. Certificate.Equal compares Raw). Does not decide that a decoder's success is independent of the signature bits (true for same-length BIT STRING contents — library semantics); reads through interface dispatch or reflection inside zcrypto are not followed."
+	r.Rule("signature-len-only; selfsigned-reader; selfsigned-only-if-self-issued; forbidden-members; raw-decode-only; sig-derived-fields (taint of zcrypto parseCertificate); callee-reads")
+	r.Trusted = []string{"go/ssa", "asn1.Unmarshal / cryptobyte decode fields positionally (ASN.1 Certificate = SEQUENCE{tbs, alg, sig})", "interface dispatch / reflection inside zcrypto is not followed by the taint pass; whether parsing SUCCEEDS is assumed independent of the signature bits"}
 
 	c09Members(c, r)
 	c09ZcryptoSelfSigned(c, r)
+	F := c09ZcryptoTaint(c, r)
+	c09CalleeReads(c, r, F)
 	r.Finish()
 }
 
